@@ -305,6 +305,7 @@ type caseResult struct {
 	wrote    bool
 	refOut   bool
 	silent   bool // a traced call succeeded on an outside path without any visible change in the dump
+	ties     []int // size of the charset tie set at each detection of this execution
 }
 
 var kinds = []struct {
@@ -464,7 +465,67 @@ func unzip(fs filesystem.FS, mode, src, dest string) error {
 	return err
 }
 
-// runCase executes one case on the real code and evaluates the three clauses.
+// tieSizes parses what the instrumented charset detection reported during one execution.
+func tieSizes() []int {
+	v := os.Getenv("VERIF_CHARDET_TIES")
+	if v == "" {
+		return nil
+	}
+	var out []int
+	for _, f := range strings.Split(v, ",") {
+		n, _ := strconv.Atoi(f)
+		out = append(out, n)
+	}
+	return out
+}
+
+func setChoices(ch []int) {
+	var fs []string
+	for _, k := range ch {
+		fs = append(fs, strconv.Itoa(k))
+	}
+	_ = os.Setenv("VERIF_CHARDET_CHOICES", strings.Join(fs, ","))
+	_ = os.Unsetenv("VERIF_CHARDET_TIES")
+}
+
+// maxExecutionsPerCase caps the enumeration of charset-tie resolutions of one case (never reached within the bound;
+// if it were, the evidence says exhaustive=false).
+const maxExecutionsPerCase = 256
+
+// explore runs a case once per resolution of the charset ties met on the way (depth-first over the choice vector:
+// the i-th detection of an execution picks member choices[i] of its tie set) and calls f for every execution.
+func (s *sandbox) explore(c *caseSpec, f func(c *caseSpec, res *caseResult)) (executions int, capped bool, engineErr error) {
+	var choices []int
+	for {
+		cc := *c
+		cc.Choices = append([]int(nil), choices...)
+		res, err := s.runCase(&cc)
+		if err != nil {
+			return executions, capped, err
+		}
+		executions++
+		f(&cc, &res)
+		sizes := res.ties
+		for len(choices) < len(sizes) {
+			choices = append(choices, 0)
+		}
+		choices = choices[:len(sizes)]
+		j := len(sizes) - 1
+		for j >= 0 && choices[j]+1 >= sizes[j] {
+			j--
+		}
+		if j < 0 {
+			return executions, capped, nil
+		}
+		if executions >= maxExecutionsPerCase {
+			return executions, true, nil
+		}
+		choices = choices[:j+1]
+		choices[j]++
+	}
+}
+
+// runCase executes one case (with c.Choices resolving the charset ties) on the real code and evaluates the three clauses.
 func (s *sandbox) runCase(c *caseSpec) (res caseResult, engineErr error) {
 	c.fill()
 	z := c.archive()
@@ -498,7 +559,9 @@ func (s *sandbox) runCase(c *caseSpec) (res caseResult, engineErr error) {
 		}
 		mon = s.osMon
 		mon.reset()
+		setChoices(c.Choices)
 		err = unzip(s.osFS, c.Limits, s.src, dest)
+		res.ties = tieSizes()
 		after := s.snapshotOS()
 		destAbsPath := mon.abs(destClean)
 		destRelToRoot, _ := filepath.Rel(s.root, destAbsPath)
@@ -569,7 +632,9 @@ func (s *sandbox) runCase(c *caseSpec) (res caseResult, engineErr error) {
 		mon = &monitor{}
 		fs := filesystem.NewVirtualFileSystem(vfsx.NewMem(mem, vfsx.NewShared(mon), 0), filesystem.InMemoryFS, filesystem.IdentityPathConverterFunc)
 		before := memSnapshot(mem, s.src)
+		setChoices(c.Choices)
 		err = unzip(fs, c.Limits, s.src, dest)
+		res.ties = tieSizes()
 		after := memSnapshot(mem, s.src)
 		key := func(p string) string { // MemMapFs's own normalisation
 			p = filepath.Clean(p)
@@ -650,12 +715,12 @@ func (s *sandbox) runCase(c *caseSpec) (res caseResult, engineErr error) {
 		}
 	}
 	for _, b := range res.Blocked {
-		add("blocked-outside-sandbox:op="+b.Kind+":"+nameClass, fmt.Sprintf("backend call %s(%q) was aimed outside the sandbox and was refused by the harness", b.Kind, b.Path))
+		add(fmt.Sprintf("blocked-outside-sandbox:op=%s:nest=%d", b.Kind, nest), fmt.Sprintf("backend call %s(%q) was aimed outside the sandbox and was refused by the harness", b.Kind, b.Path))
 		break
 	}
 	// clause (2): reported on its own only when the trace did not already explain it
 	if len(diffs) > 0 && firstOutside == "" {
-		add("outside-changed:"+diffs[0].kind+":"+nameClass, fmt.Sprintf("outside the destination: %s %q (and %d more differences) although no traced call succeeded outside", diffs[0].kind, diffs[0].path, len(diffs)-1))
+		add(fmt.Sprintf("outside-changed:%s:nest=%d", diffs[0].kind, nest), fmt.Sprintf("outside the destination: %s %q (and %d more differences) although no traced call succeeded outside", diffs[0].kind, diffs[0].path, len(diffs)-1))
 	}
 	if len(diffs) == 0 && firstOutside != "" {
 		// e.g. MkdirAll of an existing outside directory, or (in-memory backend) a directory opened for writing
@@ -665,11 +730,15 @@ func (s *sandbox) runCase(c *caseSpec) (res caseResult, engineErr error) {
 		engineErr = e
 	}
 	if !archiveIntact {
-		add("archive-modified:"+nameClass, "the source archive was modified by the extraction")
+		add(fmt.Sprintf("archive-modified:nest=%d", nest), "the source archive was modified by the extraction")
 	}
 	// clause (3)
 	if res.refOut && res.ErrKind != "malicious" {
-		add("not-refused:result="+res.ErrKind+":shape="+c.Shape+":"+nameClass, fmt.Sprintf("raw name %s resolves outside %q but the call returned %q", c.NameQuoted, destClean, res.ErrKind))
+		result := "other-error"
+		if res.ErrKind == "ok" {
+			result = "ok"
+		}
+		add(fmt.Sprintf("not-refused:result=%s:nest=%d", result, nest), fmt.Sprintf("raw name %s resolves outside %q but the call returned %q", c.NameQuoted, destClean, res.ErrKind))
 	}
 	dk := ""
 	for _, d := range diffs {
